@@ -33,6 +33,7 @@ ResetTo(rt, late) ==
   /\ srcNext' = [s \in Src |-> 1] /\ wmCount' = [s \in Src |-> 0] /\ srcAck' = [s \in Src |-> 0]
   /\ srcUp' = [s \in Src |-> "up"]
   /\ rpc' = [s \in Src |-> "idle"] /\ pending' = [s \in Src |-> [t \in Tgt |-> <<>>]]
+  /\ bcastTo' = [s \in Src |-> {}]
   /\ lastHigh' = [s \in Src |-> 0] /\ lastWm' = [s \in Src |-> 0]
   /\ ackByTarget' = [s \in Src |-> [t \in Tgt |-> Absent]]
   /\ lastSentMin' = [s \in Src |-> 0] /\ ackChan' = [s \in Src |-> <<>>]
@@ -66,10 +67,15 @@ TTgtMsg ==
        \* the tasks carry the original ids the design says they carry
        /\ \A i \in 1..n : \E j \in 1..Len(pidMap[Ev.t]) :
              LET e == pidMap[Ev.t][j] IN e.pid = Ev.pids[i] /\ e.task /\ e.src = Ev.tasks[i].s /\ e.orig = Ev.tasks[i].id
+\* keep-alive of the sender (1 s idle): the last exclusive high again, no tasks, no ring entry
+TTgtKeepAlive == /\ IsEvent("TgtMsg") /\ Ev.ka /\ Len(Ev.pids) = 0 /\ Live(Ev.t) /\ inflight[Ev.t] = NoFlight
+                 /\ trkHigh[Ev.t] # 0 /\ Ev.high = trkHigh[Ev.t] /\ UNCHANGED vars
+\* keep-alive of the receiver (1 s idle): the last aggregated ack again
+TSrcKeepAlive == /\ IsEvent("SrcAck") /\ Ev.ka /\ srcUp[Ev.s] = "up" /\ lastAck[Ev.s] = Ev.a /\ Ev.a > 0 /\ UNCHANGED vars
 TTgtDone == IsEvent("TgtDone") /\ \E i \in 1..Len(trkQ[Ev.t]) : trkQ[Ev.t][i] = Ev.pid /\ TgtDone(Ev.t, i)
 TTgtAck == IsEvent("TgtAck") /\ TgtAck(Ev.t) /\ tackWire'[Ev.t][Len(tackWire'[Ev.t])] = Ev.w
 Emits(s) == srcAck'[s] # srcAck[s] \/ lastAck'[s] # lastAck[s] \/ lastSentMin'[s] # lastSentMin[s]
-TSrcAck == /\ IsEvent("SrcAck") /\ Aggregate(Ev.s)
+TSrcAck == /\ IsEvent("SrcAck") /\ ~Ev.ka /\ Aggregate(Ev.s)
            /\ LET m == Head(ackChan[Ev.s])
                   abt == [ackByTarget[Ev.s] EXCEPT ![m.tgt] = m.a]
                   mn == Min({abt[t] : t \in {u \in Tgt : abt[u] # Absent}})
@@ -94,10 +100,10 @@ TQuiet == /\ IsEvent("Quiet") /\ UNCHANGED vars
 TOther == Stutter({"End", "Unrealised", "Stuck", "Final", "Tick"})
 
 TSilent == /\ l <= Len(TraceLog) /\ sc < MaxSilent /\ sc' = sc + 1 /\ l' = l
-           /\ \/ \E s \in Src, t \in Tgt : Deliver(s, t) \/ ForwardAck(t, s) \/ ReplayWm(t, s)
+           /\ \/ \E s \in Src, t \in Tgt : Deliver(s, t) \/ Bcast(s, t) \/ ForwardAck(t, s) \/ ReplayWm(t, s)
               \/ \E t \in Tgt : SenderDequeue(t) \/ SenderRecvAck(t) \/ FinishAck(t) \/ SenderStop(t)
               \/ \E s \in Src : AggregateQuiet(s) \/ SrcStop(s)
-Matching == TConfig \/ TSrcBatch \/ TTgtMsg \/ TTgtDone \/ TTgtAck \/ TSrcAck \/ TTgtOpen \/ TTgtClose \/ TTgtGone
+Matching == TConfig \/ TSrcBatch \/ TTgtMsg \/ TTgtKeepAlive \/ TSrcKeepAlive \/ TTgtDone \/ TTgtAck \/ TSrcAck \/ TTgtOpen \/ TTgtClose \/ TTgtGone
             \/ TSrcOpen \/ TSrcClose \/ TSrcGone \/ TQuiet \/ TOther
 TraceNext == Matching \/ TSilent
 TraceSpec == TraceInit /\ [][TraceNext]_tvars
@@ -105,5 +111,8 @@ TraceSpec == TraceInit /\ [][TraceNext]_tvars
 HighWater == TLCSet(1, IF TLCGet(1) < l THEN l ELSE TLCGet(1))
 Accepted == IF TLCGet(1) = Len(TraceLog) + 1 THEN PrintT(<<"TRACE_ACCEPTED", Len(TraceLog)>>)
             ELSE PrintT(<<"TRACE_REJECTED_AT", TLCGet(1), "OF", Len(TraceLog)>>)
+\* acceptance as a (deliberately) violated invariant: with the depth-first queue TLC stops at the first accepting path
+NotAccepted == l <= Len(TraceLog)
+Brief == [l |-> l, sc |-> sc]
 TView == <<route, srcVars, rcvVars, sndVars, tgtVars, pidMap, l, sc>>
 =============================================================================
